@@ -48,6 +48,7 @@ pub struct HistoryOpts {
     pub matrix: bool,
     pub api: ApiKind,
     pub prestored: bool,
+    pub one_address_per_code: bool,
 }
 
 /// Everything observable of a finished history (C19): per-step records + final raw storage.
@@ -147,9 +148,10 @@ pub fn run_history(rng: &mut Rng, opts: &HistoryOpts, rep: &mut Report, prop: &s
 }
 
 pub fn run_history_t(rng: &mut Rng, opts: &HistoryOpts, rep: &mut Report, prop: &str, record: bool) -> (Case, Vec<Disc>, Option<Vec<String>>) {
-    let mut w = World::with_setup(opts.api, opts.prestored);
+    let mut w = World::with_setup2(opts.api, opts.prestored, opts.one_address_per_code);
     let api = opts.api;
-    let prestored = opts.prestored;
+    let prestored = opts.prestored && !opts.one_address_per_code;
+    let one_address_per_code = opts.one_address_per_code;
     if record {
         w.transcript = Some(vec![]);
     }
@@ -162,7 +164,7 @@ pub fn run_history_t(rng: &mut Rng, opts: &HistoryOpts, rep: &mut Report, prop: 
             account(i, &op, rep, prop);
         }
         if !d.is_empty() {
-            return (Case { ops, api, prestored }, d, finish_transcript(&mut w));
+            return (Case { ops, api, prestored, one_address_per_code }, d, finish_transcript(&mut w));
         }
     }
     let mut todo: Vec<Top> = vec![];
@@ -212,14 +214,14 @@ pub fn run_history_t(rng: &mut Rng, opts: &HistoryOpts, rep: &mut Report, prop: 
             account(i, &op, rep, prop);
         }
         if !d.is_empty() {
-            return (Case { ops, api, prestored }, d, finish_transcript(&mut w));
+            return (Case { ops, api, prestored, one_address_per_code }, d, finish_transcript(&mut w));
         }
     }
     // final quiescent-point checks
     let (d, _) = w.step(&Top::QueryBattery, rep);
     ops.push(Top::QueryBattery);
     let t = finish_transcript(&mut w);
-    (Case { ops, api, prestored }, d, t)
+    (Case { ops, api, prestored, one_address_per_code }, d, t)
 }
 
 pub fn run_case(case: &Case, rep: &mut Report, prop: &str) -> Vec<Disc> {
@@ -348,7 +350,7 @@ fn run_opaque(next_op: &mut dyn FnMut(&World) -> Option<Top>, rep: &mut Report) 
             for w in [&mut a, &mut b] {
                 if let Err(p) = catch(|| w.app.update_block(|bl| { bl.time = bl.time.plus_nanos(dt); bl.height += 1; })) {
                     discs.push(Disc { props: vec!["C14", "C01"], sig: "block-update-panics".into(), detail: p });
-                    return (Case { ops, api: ApiKind::Std, prestored: false }, discs);
+                    return (Case { ops, api: ApiKind::Std, prestored: false, one_address_per_code: false }, discs);
                 }
             }
             rep.bump("e1/opaque/block_updates");
@@ -363,7 +365,7 @@ fn run_opaque(next_op: &mut dyn FnMut(&World) -> Option<Top>, rep: &mut Report) 
             Ok(r) => r,
             Err(p) => {
                 discs.push(Disc { props: vec!["C01", "C14", "C17"], sig: "panic-in-transaction-with-module-messages".into(), detail: format!("{}: {}", short_op(&op), p) });
-                return (Case { ops, api: ApiKind::Std, prestored: false }, discs);
+                return (Case { ops, api: ApiKind::Std, prestored: false, one_address_per_code: false }, discs);
             }
         };
         rep.bump(&format!("e1/opaque/tx/{}", if ra.is_ok() { "ok" } else { "err" }));
@@ -383,7 +385,7 @@ fn run_opaque(next_op: &mut dyn FnMut(&World) -> Option<Top>, rep: &mut Report) 
                 if let Some(detail) = crate::engines::e1_chain::app_queries_vs_committed(&a.app, &before, rep) {
                     discs.push(Disc { props: vec!["C10"], sig: "app-query-observes-effects-of-failed-transaction-with-module-messages".into(), detail: format!("{}: {}", short_op(&op), detail) });
                 }
-                return (Case { ops, api: ApiKind::Std, prestored: false }, discs);
+                return (Case { ops, api: ApiKind::Std, prestored: false, one_address_per_code: false }, discs);
             }
         } else if after != before {
             rep.fingerprints.insert(fp_str(&format!("{:?}", trace.iter().map(|t| (t.entry.clone() as u8, t.tag % 1000)).collect::<Vec<_>>())));
@@ -421,30 +423,30 @@ fn run_opaque(next_op: &mut dyn FnMut(&World) -> Option<Top>, rep: &mut Report) 
                 let sb = crate::rawstate::dump(b.app.storage());
                 if !same || sa != sb {
                     discs.push(Disc { props: vec!["C01"], sig: "execute-multi-differs-from-the-same-messages-in-sequence".into(), detail: format!("{}: responses equal: {}, storage diff {:?}", short_op(&op), same, crate::rawstate::diff(&sa, &sb).iter().take(4).collect::<Vec<_>>()) });
-                    return (Case { ops, api: ApiKind::Std, prestored: false }, discs);
+                    return (Case { ops, api: ApiKind::Std, prestored: false, one_address_per_code: false }, discs);
                 }
             }
             (Err(_), Err(0)) => {}
             (Err(_), Err(_)) => {
                 // a later message failed: A rolled everything back, the one-by-one twin kept the earlier ones — out of step, stop here
                 rep.bump("e1/opaque/histories_ended_by_partial_sequence");
-                return (Case { ops, api: ApiKind::Std, prestored: false }, discs);
+                return (Case { ops, api: ApiKind::Std, prestored: false, one_address_per_code: false }, discs);
             }
             (Ok(_), Err(i)) => {
                 discs.push(Disc { props: vec!["C01"], sig: "execute-multi-succeeded-although-a-message-fails-alone".into(), detail: format!("{}: message #{} fails when executed in sequence", short_op(&op), i) });
-                return (Case { ops, api: ApiKind::Std, prestored: false }, discs);
+                return (Case { ops, api: ApiKind::Std, prestored: false, one_address_per_code: false }, discs);
             }
             (Err(e), Ok(_)) => {
                 discs.push(Disc { props: vec!["C01"], sig: "execute-multi-failed-although-every-message-succeeds-in-sequence".into(), detail: format!("{}: {}", short_op(&op), first_line(e)) });
-                return (Case { ops, api: ApiKind::Std, prestored: false }, discs);
+                return (Case { ops, api: ApiKind::Std, prestored: false, one_address_per_code: false }, discs);
             }
         }
         if !discs.is_empty() {
-            return (Case { ops, api: ApiKind::Std, prestored: false }, discs);
+            return (Case { ops, api: ApiKind::Std, prestored: false, one_address_per_code: false }, discs);
         }
     }
     // purity at the end
     let mut answers = vec![];
     discs.extend(a.query_battery(rep, &mut answers));
-    (Case { ops, api: ApiKind::Std, prestored: false }, discs)
+    (Case { ops, api: ApiKind::Std, prestored: false, one_address_per_code: false }, discs)
 }
